@@ -7,9 +7,10 @@ from harness.common import run_cases, ints, coq_list
 from harness.impl import quiet, InjSystem, gint
 
 HEADER = """From Coq Require Import Arith List Bool.
-From OQ Require Import Model.Cache.
+From OQ Require Import Model.Cache Model.Holder.
 Import ListNotations.
 Definition ver (o : option nat) : nat := match o with Some v => v | None => 0 end.
+Definition holder_answers (ops : list (hop nat)) : list nat := map ver (hrun nat nat (fun v => v) (hinit nat) ops).
 Definition answers (ops : list (op nat)) : list nat :=
   map ver (snd (run nat nat (fun p a => p) (init nat nat) ops))."""
 
@@ -344,6 +345,59 @@ def run(chk):
         if got.shape != base.shape or not np.allclose(got, base, rtol=0, atol=1e-9, equal_nan=True):
             chk.fail("aliases-caller-array:" + name, f"{name}: overwriting the caller's array after it was handed over changes the later result "
                      f"(by {np.nanmax(np.abs(got - base)):.2e}): the object aliases the caller's buffer", info)
+
+    # ---- (b3) the same as operation sequences against Model/Holder.v (theorem holders_snapshot): the caller allocates
+    # arrays (version p = the base arrays scaled by 1 + (p-1)/4), overwrites them in place, builds objects and computes;
+    # the version a result was computed from is looked up among the results of fresh objects ------------------------------
+    scale = lambda arrs, p_: [np.ascontiguousarray(np.array(a, dtype=complex) * (1 + 0.25 * (p_ - 1))) for a in arrs]
+    for hi, (name, arrays, make, use) in enumerate(holders()):
+        try:
+            ref = {p_: quiet(use, quiet(make, scale(arrays, p_))) for p_ in (1, 2, 3)}
+        except Exception as ex:
+            chk.fail("holder-raises", f"{name}: raises {ex!r}", {"holder": name})
+            continue
+        if any(np.allclose(ref[a_], ref[b_], rtol=0, atol=1e-7, equal_nan=True) for a_, b_ in ((1, 2), (1, 3), (2, 3))):
+            chk.disagree("holder harness", f"{name}: versions not distinguishable")
+            continue
+        for rep_ in range(3 if thorough else 2):
+            mem, objs_, ops, got = [], [], [], []
+            p0 = rng.randint(1, 3)
+            p1 = rng.choice([q for q in (1, 2, 3) if q != p0])
+            script = [("Alloc", p0), ("Build", 0), ("Write", 0, p1), ("Compute", 0), ("Build", 0), ("Compute", 1), ("Compute", 0)] if rep_ == 0 else None
+            for k in range(len(script) if script else rng.randint(4, 8)):
+                if script:
+                    st_ = script[k]
+                else:
+                    kind = rng.choice(["Alloc", "Write", "Build", "Build", "Compute", "Compute"]) if mem else "Alloc"
+                    if kind == "Compute" and not objs_:
+                        kind = "Build"
+                    st_ = {"Alloc": lambda: ("Alloc", rng.randint(1, 3)), "Write": lambda: ("Write", rng.randrange(len(mem)), rng.randint(1, 3)),
+                           "Build": lambda: ("Build", rng.randrange(len(mem))), "Compute": lambda: ("Compute", rng.randrange(len(objs_)))}[kind]()
+                try:
+                    if st_[0] == "Alloc":
+                        mem.append(scale(arrays, st_[1]))
+                    elif st_[0] == "Write":
+                        for x, y in zip(mem[st_[1]], scale(arrays, st_[2])):
+                            x[...] = y
+                    elif st_[0] == "Build":
+                        objs_.append(quiet(make, mem[st_[1]]))
+                    else:
+                        r = quiet(use, objs_[st_[1]])
+                        hits = [q for q in (1, 2, 3) if r.shape == ref[q].shape and np.allclose(r, ref[q], rtol=0, atol=1e-9, equal_nan=True)]
+                        got.append((len(ops), hits[0] if len(hits) == 1 else -1))
+                except Exception as ex:
+                    chk.fail("holder-raises", f"{name}: {st_} raises {ex!r}", {"holder": name, "ops": ops})
+                    break
+                ops.append(f"{st_[0]} nat " + " ".join(str(x) for x in st_[1:]))
+            exp = [0] * len(ops)
+            for pos, v in got:
+                exp[pos] = v
+            exprs.append("holder_answers " + coq_list(ops))
+            expected.append(exp)
+            info = {"family": "holder:" + name, "ops": ops}
+            meta.append(info)
+            chk.count("holder_sequences")
+            chk.case(info, ("holder-seq", name, tuple(ops)))
 
     # ---- (c) re-using objects in several computations = fresh objects ------------------------
     for it in range(6 if thorough else 3):
